@@ -22,7 +22,7 @@ RULE = (
     "case = (structure definition as JSON: 1-5 type names, acyclic relation graph from __root__ in which a child type "
     "may occur under several parents, fixed counts 0-3 or RangeRandomizer counts, `types` defaults incl. '*', "
     "relation specs overriding them, {idx}/{hier_idx} templates, every Randomizer class, probabilities in "
-    "{0.25,0.5,1.0}, optional :factory / :callback; integer seed; Tree or TypedTree; in two cases of five after an earlier build of another definition that failed three levels down (unknown macro name / raising callback); built twice from the same "
+    "{0.25,0.5,1.0}, optional :factory / :callback; integer seed; Tree or TypedTree or a user subclass of either; a quarter of the relation graphs are recursive (a type that may contain itself); in two cases of five after an earlier build of another definition that failed three levels down (unknown macro name / raising callback); built twice from the same "
     "definition object). Oracle: validity predicate over the result (class, name, child types allowed by the "
     "relations, per-relation counts, merged attributes with expanded templates, randomized values inside declared "
     "ranges, skipped attributes absent, probability-1 attributes present, kind == type name). Non-trivial: >= 2 "
@@ -174,9 +174,23 @@ def check_value(rec, where, key, spec, present, val, idx, hier):
             rec.fail("attr:text", [where, key, repr(val)])
 
 
+class MyRandomTree(Tree):
+    """user-defined subclass: build_random_tree is a classmethod and returns an instance of the class it is called on"""
+
+
+class MyRandomTypedTree(TypedTree):
+    pass
+
+
+def tree_class(case):
+    if case.get("subclass"):
+        return MyRandomTypedTree if case["typed"] else MyRandomTree
+    return TypedTree if case["typed"] else Tree
+
+
 def validate(rec, case, tree, which):
     typed = case["typed"]
-    cls = TypedTree if typed else Tree
+    cls = tree_class(case)
     if type(tree) is not cls:
         rec.fail("class", [which, type(tree).__name__])
         return
@@ -260,7 +274,11 @@ def validate(rec, case, tree, which):
 
 def run(case, rec):
     sd = mk_structure(case)
-    cls = TypedTree if case["typed"] else Tree
+    cls = tree_class(case)
+    if case.get("subclass"):
+        rec.cls("user-subclass")
+    if any(p in rel for p, rel in case["relations"].items()):
+        rec.cls("recursive-relation")
     state = random.getstate()
     try:
         random.seed(case["seed"])
@@ -385,6 +403,17 @@ def hyp_cases(draw, tier):
                 if not typed and not marker_in_types:
                     s["_t"] = ["const", c]
                 relations[p][c] = s
+    if draw(st.sampled_from([0, 0, 0, 1])):
+        # a recursive relation (a type that may contain itself, e.g. folder -> folder): count 0..2 with probability
+        # 0.5, so the expected number of nested instances per node is below one and the recursion ends
+        cands = [t for t in tnames if t in relations]
+        if cands:
+            p = draw(st.sampled_from(cands))
+            s = draw(spec_dict(with_count=False))
+            s[":count"] = ["range", 0, draw(st.sampled_from([1, 2])), 0.5]
+            if not typed and not marker_in_types:
+                s["_t"] = ["const", p]
+            relations[p] = dict([(p, s)] + list(relations[p].items())) if draw(st.booleans()) else dict(list(relations[p].items()) + [(p, s)])
     types = None
     if marker_in_types or draw(st.booleans()):
         types = {}
@@ -404,6 +433,7 @@ def hyp_cases(draw, tier):
         "relations": relations,
         "twice": draw(st.booleans()),
         "failed_first": draw(st.sampled_from([0, 0, 0, 1, 2])),
+        "subclass": draw(st.sampled_from([False, False, True])),
     }
 
 
